@@ -594,3 +594,18 @@ func (m *WindowMonitor) Counters() map[string]int {
 }
 
 var _ = fmt.Sprintf
+
+// StreamByTag finds the link and stream id of the RPC with the given x-rpc tag.
+func (m *WireMonitor) StreamByTag(tag string) (*Link, int64, bool) {
+	t := m.w.Tap
+	t.mu.Lock()
+	defer t.mu.Unlock()
+	for l, wl := range m.links {
+		for id, st := range wl.streams {
+			if st.tag == tag {
+				return l, id, true
+			}
+		}
+	}
+	return nil, 0, false
+}
